@@ -8,10 +8,12 @@ def perms : List Nat → List (List Nat)
   | x :: xs => (perms xs).flatMap fun p =>
       (List.range (p.length + 1)).map fun i => p.take i ++ x :: p.drop i
 
-/-- all maps from `n` iterations to threads `0..t-1` -/
-def assigns (t : Nat) : Nat → List (List Nat)
-  | 0 => [[]]
-  | n+1 => (assigns t n).flatMap fun a => (List.range t).map fun th => th :: a
+/-- thread assignments up to renaming of threads (restricted growth strings, reversed):
+every partition of `n` positions into threads -/
+def assigns : Nat → List (List Nat × Nat)
+  | 0 => [([], 0)]
+  | n+1 => (assigns n).flatMap fun (a, mx) =>
+      (List.range (mx + 1)).map fun th => (th :: a, if th == mx then mx + 1 else mx)
 
 /-- the schedules tried for `n` iterations -/
 def schedules (n : Nat) : List (List (Nat × Nat)) :=
@@ -25,7 +27,7 @@ def schedules (n : Nat) : List (List (Nat × Nat)) :=
     [fun _ _ => 0, fun _ k => k % 2, fun _ k => k % 3, fun _ k => k, fun _ k => if 2 * k < n then 0 else 1,
      fun p _ => p % 2, fun p _ => p % 3, fun _ k => k * 4 / n, fun _ k => k % 8]
   if n ≤ 4 then
-    ps.flatMap fun p => (assigns 4 n).map fun a => a.zip p
+    ps.flatMap fun p => (assigns n).map fun (a, _) => a.reverse.zip p
   else
     ps.flatMap fun p => asg.map fun f => (List.range n).zip p |>.map fun (pos, k) => (f pos k, k)
 
@@ -44,7 +46,10 @@ def showSched (s : List (Nat × Nat)) : String :=
       | some τ =>
         let got := shared.map fun l => τ l
         if got == want then go rest (n + 1)
-        else "(differs " ++ showSched s ++ " " ++ showList toString got ++ ")"
+        else
+          let bad := ((shared.zip (got.zip want)).filter fun (_, g, w) => g != w).take 6
+          "(differs " ++ showSched s ++ " " ++ showList (fun ((x, i, j), g, w) =>
+            "(" ++ toString x ++ " " ++ toString i ++ " " ++ toString j ++ " " ++ toString g ++ " " ++ toString w ++ ")") bad ++ ")"
   go (schedules (P.trips σ)) 0
 
 /-- first shared location written by one iteration and accessed by another (variable id) -/
